@@ -421,8 +421,10 @@ class ParkChooser(BernoulliChooser):
     `need` whole operations (or nothing else can run). Everything else follows a sparse Bernoulli policy.
     Aimed at windows that only matter if another thread gets a complete operation done inside them."""
 
-    def __init__(self, rng, n_threads, p_line, p_hot, k_max=160, need=1, late=None):
+    def __init__(self, rng, n_threads, p_line, p_hot, k_max=160, need=1, late=None, rearm=0):
         super().__init__(rng, p_line, p_hot)
+        self.n_threads = n_threads
+        self.rearm = rearm        # > 0: after a parked thread went on, another victim is parked 1..rearm hot points later, and so on
         self.victim = rng.randrange(n_threads)
         self.k = rng.randint(1, k_max)
         if late is not None:
@@ -442,6 +444,15 @@ class ParkChooser(BernoulliChooser):
         sched.next_at[2] = 1      # look at every hot point until the victim has been parked
         sched.next_at[5] = 1
 
+    def _again(self, sched):
+        if self.rearm:
+            self.fired = False
+            self.seen = 0
+            self.victim = self.rng.randrange(self.n_threads)
+            self.k = self.rng.randint(1, self.rearm)
+            sched.next_at[2] = sched.cnt[2] + 1
+            sched.next_at[5] = sched.cnt[5] + 1
+
     def _others(self, sched, t):
         h = self.held[0] if self.held else -1
         return [x for x in sched.threads if x.state == RUNNABLE and x is not t and x.idx != h]
@@ -453,6 +464,7 @@ class ParkChooser(BernoulliChooser):
                 v = sched.threads[self.held[0]]
                 self.held = None
                 self.arm(sched, cls)
+                self._again(sched)
                 if v.state == RUNNABLE:
                     return v               # the parked thread resumes right after the other operation completed
         if not self.fired and cls in (2, 5) and t.idx == self.victim:
@@ -486,6 +498,7 @@ class ParkChooser(BernoulliChooser):
         free = [x for x in runnable if x.idx != h]
         if not free:
             self.held = None              # nothing else can run: the parked thread goes on
+            self._again(sched)
             free = runnable
         return free[self.rng.randrange(len(free))]
 
@@ -618,6 +631,7 @@ class Scheduler:
         self.main_gate.acquire()
         self.stats = {}
         self.hot_points = 0
+        self.all_hot = False
         self.cnt = [0, 0, 0, 0, 0, 0, 0]
         self.next_at = [INF, INF, INF, INF, INF, INF, INF]
         self.last_code_h = 0
@@ -688,7 +702,11 @@ class Scheduler:
             if self.merge_hot:
                 cls = 1
         elif cls == 6:
-            cls = 1                      # ordinary package code: finer points, same switching policy as line points
+            if self.all_hot:
+                self.hot_points += 1
+                cls = 1 if self.merge_hot else 2     # call-only workloads: every package instruction is a place worth parking at
+            else:
+                cls = 1                  # ordinary package code: finer points, same switching policy as line points
         elif cls == 7:
             self.foreign_points += 1
             cls = 1
